@@ -139,7 +139,122 @@ fn break_query(q: &mut QueryAst, how: u32) {
     }
 }
 
+/// Type headers of a rendered schema: (line index, "interface" | "type", name).
+fn type_headers(lines: &[&str]) -> Vec<(usize, bool, String)> {
+    let mut out = vec![];
+    for (i, l) in lines.iter().enumerate() {
+        for (kw, is_iface) in [("interface ", true), ("type ", false)] {
+            if let Some(rest) = l.strip_prefix(kw) {
+                let name: String = rest.chars().take_while(|c| c.is_ascii_alphanumeric() || *c == '_').collect();
+                if !name.is_empty() && name != "RootQ" {
+                    out.push((i, is_iface, name));
+                }
+            }
+        }
+    }
+    out
+}
+
 fn break_schema(text: &str, how: u32) -> String {
+    // Every documented schema rule is broken by some mode, always at several places at once, so
+    // that *which* errors are reported, and in which order, is exercised.
+    let lines: Vec<&str> = text.lines().collect();
+    let heads = type_headers(&lines);
+    let ifaces: Vec<String> = heads.iter().filter(|h| h.1).map(|h| h.2.clone()).collect();
+    match how % 7 {
+        3 => {
+            // implementation cycles: the interfaces implement each other in a ring (or half of
+            // them do), every object type implements all of them -> several unresolved types,
+            // asymmetrically
+            let mut out = String::new();
+            for (i, l) in lines.iter().enumerate() {
+                if let Some(h) = heads.iter().find(|h| h.0 == i) {
+                    let kw = if h.1 { "interface" } else { "type" };
+                    let imp: Vec<String> = if h.1 {
+                        if ifaces.len() <= 1 {
+                            ifaces.clone() // self cycle
+                        } else {
+                            let me = ifaces.iter().position(|x| x == &h.2).unwrap_or(0);
+                            let mut v = vec![ifaces[(me + 1) % ifaces.len()].clone()];
+                            if how % 2 == 1 && ifaces.len() > 2 {
+                                v.push(ifaces[(me + 2) % ifaces.len()].clone());
+                            }
+                            v
+                        }
+                    } else {
+                        ifaces.clone()
+                    };
+                    if imp.is_empty() {
+                        out.push_str(&format!("{kw} {} {{\n", h.2));
+                    } else {
+                        out.push_str(&format!("{kw} {} implements {} {{\n", h.2, imp.join(" & ")));
+                    }
+                } else {
+                    out.push_str(l);
+                    out.push('\n');
+                }
+            }
+            return out;
+        }
+        4 => {
+            // inherited fields widened / retyped in several implementers; edges into the root type
+            let mut out = String::new();
+            let mut k = 0;
+            for l in &lines {
+                let t = l.trim_start();
+                let is_field = l.starts_with("    ") && t.contains(':') && !t.starts_with("query:") && !t.starts_with("Ep");
+                if is_field {
+                    k += 1;
+                    if k % 2 == 0 {
+                        let widened = l.replace("!", "").replace(": Int", ": String").replace(": [Int", ": [String");
+                        out.push_str(&widened);
+                        out.push('\n');
+                        continue;
+                    }
+                }
+                out.push_str(l);
+                out.push('\n');
+                if heads.iter().any(|h| lines[h.0] == *l) {
+                    out.push_str("    toRoot: RootQ\n");
+                }
+            }
+            return out;
+        }
+        5 => {
+            // reserved names, properties with parameters, defaults that do not fit, in every type
+            let mut out = String::new();
+            for l in &lines {
+                out.push_str(l);
+                out.push('\n');
+                if heads.iter().any(|h| lines[h.0] == *l) {
+                    out.push_str("    __reserved: Int\n    withParam(x: Int): Int\n");
+                    if let Some(first) = ifaces.first() {
+                        out.push_str(&format!("    badDefault(x: Int = \"a\", y: [Int!] = [null]): {first}\n"));
+                    }
+                }
+            }
+            return out;
+        }
+        6 => {
+            // interfaces that do not exist, the same field defined twice, duplicate type
+            let mut out = String::new();
+            for (i, l) in lines.iter().enumerate() {
+                if let Some(h) = heads.iter().find(|h| h.0 == i) {
+                    let kw = if h.1 { "interface" } else { "type" };
+                    out.push_str(&format!("{kw} {} implements Missing{} & Missing{} {{\n", h.2, i % 3, (i + 1) % 3));
+                    out.push_str("    dup: Int\n    dup: String\n");
+                } else {
+                    out.push_str(l);
+                    out.push('\n');
+                }
+            }
+            if let Some(h) = heads.first() {
+                out.push_str(&format!("\ntype {} {{\n    again: Int\n}}\n", h.2));
+            }
+            return out;
+        }
+        _ => {}
+    }
     // Remove inherited fields / implements clauses / add unknown types: several errors at once.
     let mut out = String::new();
     let mut k = 0u32;
